@@ -362,6 +362,10 @@ theorem get2_set2_same {α : Type} (a : Int → Int → α) (n0 n1 i j : Int) (v
     get2 (set2 a n0 n1 i j v) n0 n1 i j = v := by
   simp [get2, set2]
 
+theorem set2_same_nat {α : Type} (a : Int → Int → α) (n0 n1 : Int) (i j : Nat) (v : α) :
+    set2 a n0 n1 (i : Int) (j : Int) v (i : Int) (j : Int) = v := by
+  simp [set2, wrap_nat]
+
 theorem set2_set2 {α : Type} (a : Int → Int → α) (n0 n1 i j : Int) (v w : α) :
     set2 (set2 a n0 n1 i j v) n0 n1 i j w = set2 a n0 n1 i j w := by
   funext i' j'; simp only [set2]; split <;> rfl
@@ -391,28 +395,28 @@ theorem armsIn_of (H W : Nat) (arms : Nat → Nat → Arms) (h : armsInImage H W
 def Vis (rc : Int → Int) (c r i j : Nat) : Prop := i < c ∨ (i = c ∧ ∃ t : Nat, t < r ∧ rc t = (j : Int))
 
 /-- visited cells hold `f`, the others still hold `z` -/
-def Done (W : Nat) (rc : Int → Int) (f z : Nat → Nat → Rat) (c r : Nat) (a : Int → Int → Val) : Prop :=
-  ∀ i j : Nat, j < W → (Vis rc c r i j → a i j = Val.num (f i j)) ∧ (¬ Vis rc c r i j → a i j = Val.num (z i j))
+def Done (H W : Nat) (rc : Int → Int) (f z : Nat → Nat → Rat) (c r : Nat) (a : Int → Int → Val) : Prop :=
+  ∀ i j : Nat, i < H → j < W → (Vis rc c r i j → a i j = Val.num (f i j)) ∧ (¬ Vis rc c r i j → a i j = Val.num (z i j))
 
-theorem done_init (W : Nat) (rc : Int → Int) (f z : Nat → Nat → Rat) (a : Int → Int → Val)
-    (h : ∀ i j : Nat, a i j = Val.num (z i j)) : Done W rc f z 0 0 a := by
-  intro i j _
-  refine ⟨?_, fun _ => h i j⟩
+theorem done_init (H W : Nat) (rc : Int → Int) (f z : Nat → Nat → Rat) (a : Int → Int → Val)
+    (h : ∀ i j : Nat, i < H → j < W → a i j = Val.num (z i j)) : Done H W rc f z 0 0 a := by
+  intro i j hi hj
+  refine ⟨?_, fun _ => h i j hi hj⟩
   rintro (h | ⟨_, t, ht, _⟩) <;> omega
 
 /-- the cell about to be stored has not been visited (the columns of `range_col` are distinct): it still holds `z` -/
-theorem done_fresh {W n : Nat} {rc : Int → Int} {f z : Nat → Nat → Rat} {c r : Nat} {a : Int → Int → Val}
-    (hd : Done W rc f z c r a) (once : ∀ t t' : Nat, t < n → t' < n → rc t = rc t' → t = t') (hr : r < n)
-    (x : Nat) (hx : rc r = (x : Int)) (hxW : x < W) : a c x = Val.num (z c x) := by
-  refine (hd c x hxW).2 ?_
+theorem done_fresh {H W n : Nat} {rc : Int → Int} {f z : Nat → Nat → Rat} {c r : Nat} {a : Int → Int → Val}
+    (hd : Done H W rc f z c r a) (once : ∀ t t' : Nat, t < n → t' < n → rc t = rc t' → t = t') (hr : r < n)
+    (x : Nat) (hx : rc r = (x : Int)) (hc : c < H) (hxW : x < W) : a c x = Val.num (z c x) := by
+  refine (hd c x hc hxW).2 ?_
   rintro (h | ⟨_, t, ht, h⟩)
   · omega
   · have := once t r (by omega) hr (by rw [h, hx]); omega
 
-theorem done_set {W : Nat} {rc : Int → Int} {f z : Nat → Nat → Rat} {c r : Nat} {a : Int → Int → Val} (n0 n1 : Int)
-    (hd : Done W rc f z c r a) (x : Nat) (hx : rc r = (x : Int)) (v : Val) (hv : v = Val.num (f c x)) :
-    Done W rc f z c (r + 1) (set2 a n0 n1 (c : Int) (x : Int) v) := by
-  intro i j hj
+theorem done_set {H W : Nat} {rc : Int → Int} {f z : Nat → Nat → Rat} {c r : Nat} {a : Int → Int → Val} (n0 n1 : Int)
+    (hd : Done H W rc f z c r a) (x : Nat) (hx : rc r = (x : Int)) (v : Val) (hv : v = Val.num (f c x)) :
+    Done H W rc f z c (r + 1) (set2 a n0 n1 (c : Int) (x : Int) v) := by
+  intro i j hi hj
   rw [set2_nat]
   by_cases h : i = c ∧ j = x
   · obtain ⟨rfl, rfl⟩ := h
@@ -429,15 +433,15 @@ theorem done_set {W : Nat} {rc : Int → Int} {f z : Nat → Nat → Rat} {c r :
         · exact Or.inl h1
         · exact Or.inr ⟨h1, t, by omega, h2⟩
     simp only [h, if_false, e]
-    exact hd i j hj
+    exact hd i j hi hj
 
 /-- end of a row: the columns that `range_col` does not list keep `z`, which is what `f` says there -/
-theorem done_next {W n : Nat} {rc : Int → Int} {f z : Nat → Nat → Rat} {c : Nat} {a : Int → Int → Val}
-    (hd : Done W rc f z c n a)
+theorem done_next {H W n : Nat} {rc : Int → Int} {f z : Nat → Nat → Rat} {c : Nat} {a : Int → Int → Val}
+    (hd : Done H W rc f z c n a)
     (hrest : ∀ j : Nat, j < W → (¬ ∃ t : Nat, t < n ∧ rc t = (j : Int)) → f c j = z c j) :
-    Done W rc f z (c + 1) 0 a := by
-  intro i j hj
-  have := hd i j hj
+    Done H W rc f z (c + 1) 0 a := by
+  intro i j hi hj
+  have := hd i j hi hj
   constructor
   · rintro (h | ⟨_, t, ht, _⟩)
     · by_cases hv : Vis rc c n i j
@@ -454,8 +458,8 @@ theorem done_next {W n : Nat} {rc : Int → Int} {f z : Nat → Nat → Rat} {c 
     · exact Or.inl (by omega)
 
 theorem done_final {W : Nat} {rc : Int → Int} {f z : Nat → Nat → Rat} {H : Nat} {a : Int → Int → Val}
-    (hd : Done W rc f z H 0 a) (y x : Nat) (hy : y < H) (hx : x < W) : a y x = Val.num (f y x) :=
-  (hd y x hx).1 (Or.inl hy)
+    (hd : Done H W rc f z H 0 a) (y x : Nat) (hy : y < H) (hx : x < W) : a y x = Val.num (f y x) :=
+  (hd y x hy hx).1 (Or.inl hy)
 
 theorem comb_some (P : Plane) (y x xr : Nat) (h : rightCol P.d P.Wr x = some xr) :
     comb P y x = some ⟨min (P.armsL y x).left (P.armsR y xr).left, min (P.armsL y x).right (P.armsR y xr).right,
@@ -480,25 +484,25 @@ theorem cbcaStep2_generated_eq (P : Plane) (n : Nat) (rc rcr : Int → Int) (s1 
         r.1.get y x = Val.num (step2 P y x) ∧ r.2.get y x = Val.num ((sum2 P y x : Nat) : Rat) := by
   simp only [cbcaStep2]
   generalize hL : forRange (0 : Int) (P.H : Int) 1 _ _ = L
-  have key : L.1 = true ∧ Done P.W rc (step2 P) (fun _ _ => 0) P.H 0 L.2.1
-      ∧ Done P.W rc (fun y x => ((sum2 P y x : Nat) : Rat)) (fun _ _ => 0) P.H 0 L.2.2 := by
+  have key : L.1 = true ∧ Done P.H P.W rc (step2 P) (fun _ _ => 0) P.H 0 L.2.1
+      ∧ Done P.H P.W rc (fun y x => ((sum2 P y x : Nat) : Rat)) (fun _ _ => 0) P.H 0 L.2.2 := by
     rw [← hL]
     refine forRange_inv (fun c (st : Bool × (Int → Int → Val) × (Int → Int → Val)) => st.1 = true
-        ∧ Done P.W rc (step2 P) (fun _ _ => 0) c 0 st.2.1
-        ∧ Done P.W rc (fun y x => ((sum2 P y x : Nat) : Rat)) (fun _ _ => 0) c 0 st.2.2) 0 (P.H : Int) 1 P.H _ _
+        ∧ Done P.H P.W rc (step2 P) (fun _ _ => 0) c 0 st.2.1
+        ∧ Done P.H P.W rc (fun y x => ((sum2 P y x : Nat) : Rat)) (fun _ _ => 0) c 0 st.2.2) 0 (P.H : Int) 1 P.H _ _
       (rangeLen_one _ _ _ (by omega))
-      ⟨rfl, done_init _ _ _ _ _ (fun _ _ => rfl), done_init _ _ _ _ _ (fun _ _ => by simp [zeros2])⟩ ?_
+      ⟨rfl, done_init _ _ _ _ _ _ (fun _ _ _ _ => rfl), done_init _ _ _ _ _ _ (fun _ _ _ _ => by simp [zeros2])⟩ ?_
     rintro c ⟨ok, a, b⟩ hc ⟨hok, hda, hdb⟩
     simp only [] at hok hda hdb
     subst hok
     simp only [Int.zero_add, Int.one_mul]
     generalize hM : forRange (0 : Int) (n : Int) 1 _ _ = M
-    have keyM : M.1 = true ∧ Done P.W rc (step2 P) (fun _ _ => 0) c n M.2.1
-        ∧ Done P.W rc (fun y x => ((sum2 P y x : Nat) : Rat)) (fun _ _ => 0) c n M.2.2 := by
+    have keyM : M.1 = true ∧ Done P.H P.W rc (step2 P) (fun _ _ => 0) c n M.2.1
+        ∧ Done P.H P.W rc (fun y x => ((sum2 P y x : Nat) : Rat)) (fun _ _ => 0) c n M.2.2 := by
       rw [← hM]
       refine forRange_inv (fun r (st : Bool × (Int → Int → Val) × (Int → Int → Val)) => st.1 = true
-          ∧ Done P.W rc (step2 P) (fun _ _ => 0) c r st.2.1
-          ∧ Done P.W rc (fun y x => ((sum2 P y x : Nat) : Rat)) (fun _ _ => 0) c r st.2.2) 0 (n : Int) 1 n _ _
+          ∧ Done P.H P.W rc (step2 P) (fun _ _ => 0) c r st.2.1
+          ∧ Done P.H P.W rc (fun y x => ((sum2 P y x : Nat) : Rat)) (fun _ _ => 0) c r st.2.2) 0 (n : Int) 1 n _ _
         (rangeLen_one _ _ _ (by omega)) ⟨rfl, hda, hdb⟩ ?_
       rintro t ⟨ok, a, b⟩ ht ⟨hok, hda, hdb⟩
       simp only [] at hok hda hdb
@@ -523,7 +527,7 @@ theorem cbcaStep2_generated_eq (P : Plane) (n : Nat) (rc rcr : Int → Int) (s1 
       have i2 : inb2 (P.H : Int) ((P.W : Int) + 1) (c : Int)
           ((x : Int) - ((min (P.armsL c x).left (P.armsR c xr).left : Nat) : Int) - 1) = true := by
         simp only [inb2, inb_nat hcH, Bool.true_and]; exact inb_range (by omega) (by omega)
-      have hfresh := done_fresh hdb hw.once ht x hrc hx
+      have hfresh := done_fresh hdb hw.once ht x hrc hc hx
       have hW1 : (P.W : Int) + 1 - 1 = P.W := by omega
       simp only [hW1, Int.zero_add, Int.one_mul, get1_nat, hrc, hrcr, gl.1, gl.2.1, gr.1, gr.2.1, il.1, il.2.1, ir.1, ir.2.1,
         imin_nat, inb1, inb_nat htn, r1, r2, i1, i2, inb2_nat hcH hxW, get2_nat, hfresh, Bool.and_true, Bool.true_and]
@@ -541,6 +545,129 @@ theorem cbcaStep2_generated_eq (P : Plane) (n : Nat) (rc rcr : Int → Int) (s1 
       simp [sum2, comb_none P c j this]
   refine ⟨(⟨L.2.1, P.H, P.W⟩, ⟨L.2.2, P.H, P.W⟩), ?_, rfl, rfl, rfl, rfl, ?_⟩
   · have h0 : ((P.H : Int) ≥ 0) ∧ ((P.W : Int) + 1 - 1 ≥ 0) ∧ (P.W : Int) + 1 - 1 = P.W := ⟨by omega, by omega, by omega⟩
+    simp [key.1, h0]
+  · intro y x hy hx
+    exact ⟨done_final key.2.1 y x hy hx, done_final key.2.2 y x hy hx⟩
+
+/-! ## `cbca_step_4`: `np.copy`, `np.sum` of a slice -/
+
+theorem sliceBound_nat (n : Int) (k : Nat) (h : (k : Int) ≤ n) : sliceBound n (k : Int) = k := by
+  have h0 : ¬ ((k : Int) < 0) := by omega
+  have h1 : ¬ (n < (k : Int)) := by omega
+  simp [sliceBound, h0, h1]
+
+theorem sumFrom_eq (f : Int → Val) (g : Nat → Nat) (lo : Nat) :
+    ∀ n : Nat, (∀ k : Nat, k < n → f ((lo : Int) + k) = Val.num ((g (lo + k) : Nat) : Rat)) →
+      sumFrom f lo n = Val.num ((sumRangeN g lo n : Nat) : Rat) := by
+  intro n
+  induction n with
+  | zero => intro _; simp [sumFrom, sumRangeN]
+  | succ n ih =>
+    intro h
+    rw [sumFrom, ih (fun k hk => h k (by omega)), h n (by omega)]
+    simp [sumRangeN, vadd, Val.map2]
+
+/-- `np.sum(q[lo : lo + n, x])` of an array that holds the naturals `g` is the model's `sumRangeN` -/
+theorem sumSlice_eq (q : Int → Int → Val) (g : Nat → Nat → Nat) (H W : Nat)
+    (hq : ∀ y x : Nat, y < H → x < W → q y x = Val.num ((g y x : Nat) : Rat)) (lo n x : Nat) (hb : lo + n ≤ H) (hx : x < W)
+    (loI hiI : Int) (hlo : loI = (lo : Int)) (hhi : hiI = ((lo + n : Nat) : Int)) :
+    sumSlice0 q (H : Int) (W : Int) loI hiI (x : Int) = Val.num ((sumRangeN (fun y' => g y' x) lo n : Nat) : Rat) := by
+  subst hlo hhi
+  simp only [sumSlice0, sliceBound_nat (H : Int) lo (by omega), sliceBound_nat (H : Int) (lo + n) (by exact_mod_cast hb), wrap_nat]
+  rw [show (((lo + n : Nat) : Int) - (lo : Int)).toNat = n by omega]
+  exact sumFrom_eq _ _ lo n (fun k hk => by
+    have := hq (lo + k) x (by omega) hx
+    rw [show ((lo : Int) + (k : Int)) = ((lo + k : Nat) : Int) by push_cast; ring]
+    exact this)
+
+/-- **`cbca_step_4` as the source defines it today is the hand model's `step4` / `sum4`.**  Called with any array that
+    reads like the output of step 3 (Python row indices `[-(H+1), H]`, the sentinel row included), the `sum2` array of step 2,
+    the arm arrays of the plane (left arms inside the image) and the column lists of `cost_volume_aggregation`, the generated
+    function returns (`Res.ok`) two `(H, W)` arrays: `step3[y + bot, x] - step3[y - top - 1, x]`, and the copy of `sum2`
+    plus `top + bot` plus the two slice sums of `sum2` over the vertical arm — the model's `sum4` before the final `+ 1`
+    that `cost_volume_aggregation` adds (`sum4 P y x - 1`). -/
+theorem cbcaStep4_generated_eq (P : Plane) (n : Nat) (rc rcr : Int → Int) (s3 q : Int → Int → Val)
+    (hs3 : ∀ (x : Nat) (i : Int), x < P.W → -((P.H : Int) + 1) ≤ i → i < (P.H : Int) + 1 →
+      get2 s3 ((P.H : Int) + 1) (P.W : Int) i x = Val.num (s3At P x i))
+    (hq : ∀ y x : Nat, y < P.H → x < P.W → q y x = Val.num ((sum2 P y x : Nat) : Rat))
+    (hw : Wired P n rc rcr) (hin : ArmsIn P.H P.W P.armsL) :
+    ∃ r, cbcaStep4 s3 ((P.H : Int) + 1) P.W q P.H P.W (embA P.armsL) P.H P.W 4 (embA P.armsR) P.H P.Wr 4 rc n rcr n = .ok r ∧
+      r.1.n0 = P.H ∧ r.1.n1 = P.W ∧ r.2.n0 = P.H ∧ r.2.n1 = P.W ∧
+      ∀ y x : Nat, y < P.H → x < P.W →
+        r.1.get y x = Val.num (step4 P y x) ∧ r.2.get y x = Val.num (((sum4 P y x : Nat) : Rat) - 1) := by
+  have hH1 : (P.H : Int) + 1 - 1 = P.H := by omega
+  simp only [cbcaStep4, hH1]
+  generalize hL : forRange (0 : Int) (P.H : Int) 1 _ _ = L
+  have key : L.1 = true ∧ Done P.H P.W rc (step4 P) (fun _ _ => 0) P.H 0 L.2.1
+      ∧ Done P.H P.W rc (fun y x => ((sum4 P y x : Nat) : Rat) - 1) (fun y x => ((sum2 P y x : Nat) : Rat)) P.H 0 L.2.2 := by
+    rw [← hL]
+    refine forRange_inv (fun c (st : Bool × (Int → Int → Val) × (Int → Int → Val)) => st.1 = true
+        ∧ Done P.H P.W rc (step4 P) (fun _ _ => 0) c 0 st.2.1
+        ∧ Done P.H P.W rc (fun y x => ((sum4 P y x : Nat) : Rat) - 1) (fun y x => ((sum2 P y x : Nat) : Rat)) c 0 st.2.2)
+      0 (P.H : Int) 1 P.H _ _ (rangeLen_one _ _ _ (by omega))
+      ⟨rfl, done_init _ _ _ _ _ _ (fun _ _ _ _ => rfl), done_init _ _ _ _ _ _ hq⟩ ?_
+    rintro c ⟨ok, a, b⟩ hc ⟨hok, hda, hdb⟩
+    simp only [] at hok hda hdb
+    subst hok
+    simp only [Int.zero_add, Int.one_mul]
+    generalize hM : forRange (0 : Int) (n : Int) 1 _ _ = M
+    have keyM : M.1 = true ∧ Done P.H P.W rc (step4 P) (fun _ _ => 0) c n M.2.1
+        ∧ Done P.H P.W rc (fun y x => ((sum4 P y x : Nat) : Rat) - 1) (fun y x => ((sum2 P y x : Nat) : Rat)) c n M.2.2 := by
+      rw [← hM]
+      refine forRange_inv (fun r (st : Bool × (Int → Int → Val) × (Int → Int → Val)) => st.1 = true
+          ∧ Done P.H P.W rc (step4 P) (fun _ _ => 0) c r st.2.1
+          ∧ Done P.H P.W rc (fun y x => ((sum4 P y x : Nat) : Rat) - 1) (fun y x => ((sum2 P y x : Nat) : Rat)) c r st.2.2)
+        0 (n : Int) 1 n _ _ (rangeLen_one _ _ _ (by omega)) ⟨rfl, hda, hdb⟩ ?_
+      rintro t ⟨ok, a, b⟩ ht ⟨hok, hda, hdb⟩
+      simp only [] at hok hda hdb
+      subst hok
+      obtain ⟨x, xr, hrc, hx, hcol, hrcr, hxr⟩ := hw.facing t ht
+      have hcH : (c : Int) < (P.H : Int) := by exact_mod_cast hc
+      have hxW : (x : Int) < (P.W : Int) := by exact_mod_cast hx
+      have hxrW : (xr : Int) < (P.Wr : Int) := by exact_mod_cast hxr
+      have htn : (t : Int) < (n : Int) := by exact_mod_cast ht
+      have hA := hin c x hc hx
+      have gl := get3_embA P.armsL (P.H : Int) (P.W : Int) c x
+      have gr := get3_embA P.armsR (P.H : Int) (P.Wr : Int) c xr
+      have il := inb3_arms (n0 := (P.H : Int)) (n1 := (P.W : Int)) (i := c) (j := x) hcH hxW
+      have ir := inb3_arms (n0 := (P.H : Int)) (n1 := (P.Wr : Int)) (i := c) (j := xr) hcH hxrW
+      have hcomb := comb_some P c x xr hcol
+      generalize hT : min (P.armsL c x).top (P.armsR c xr).top = T at hcomb
+      generalize hB : min (P.armsL c x).bot (P.armsR c xr).bot = B at hcomb
+      have hTle : T ≤ (P.armsL c x).top := by rw [← hT]; exact Nat.min_le_left _ _
+      have hBle : B ≤ (P.armsL c x).bot := by rw [← hB]; exact Nat.min_le_left _ _
+      have r1 := hs3 x ((c : Int) + (B : Int)) hx (by omega) (by omega)
+      have r2 := hs3 x ((c : Int) - (T : Int) - 1) hx (by omega) (by omega)
+      have i1 : inb2 ((P.H : Int) + 1) (P.W : Int) ((c : Int) + (B : Int)) (x : Int) = true := by
+        simp only [inb2, inb_nat hxW, Bool.and_true]; exact inb_range (by omega) (by omega)
+      have i2 : inb2 ((P.H : Int) + 1) (P.W : Int) ((c : Int) - (T : Int) - 1) (x : Int) = true := by
+        simp only [inb2, inb_nat hxW, Bool.and_true]; exact inb_range (by omega) (by omega)
+      have hfresh := done_fresh hdb hw.once ht x hrc hc hx
+      have sl1 := sumSlice_eq q (sum2 P) P.H P.W hq (c - T) T x (by omega) hx ((c : Int) - (T : Int)) (c : Int) (by omega) (by omega)
+      have sl2 := sumSlice_eq q (sum2 P) P.H P.W hq (c + 1) B x (by omega) hx ((c : Int) + 1) ((c : Int) + (B : Int) + 1)
+        (by omega) (by omega)
+      simp only [Int.zero_add, Int.one_mul, get1_nat, hrc, hrcr, gl.2.2.1, gl.2.2.2, gr.2.2.1, gr.2.2.2, il.2.2.1, il.2.2.2, ir.2.2.1,
+        ir.2.2.2, imin_nat, hT, hB, inb1, inb_nat htn, inb_nat hxW, r1, r2, i1, i2, inb2_nat hcH hxW, sl1, sl2,
+        Bool.and_true, Bool.true_and]
+      -- the three `+=` on the same cell collapse to one store of the final value, in each of the four cases
+      by_cases hT0 : T = 0 <;> by_cases hB0 : B = 0 <;>
+        simp only [hT0, hB0, Int.natCast_eq_zero, Nat.cast_zero, decide_true, decide_false, Bool.not_true, Bool.not_false,
+          Bool.false_eq_true, if_false, if_true, set2_set2, get2_set2_same, get2_nat, set2_same_nat, hfresh, Bool.and_true, Bool.true_and,
+          not_true_eq_false, not_false_eq_true] <;>
+        refine ⟨by triv, by triv, done_set _ _ hda x hrc _ (by simp [step4, hcomb, hT0, hB0, vsub, Val.map2]),
+          done_set _ _ hdb x hrc _ ?_⟩ <;>
+        simp [sum4, sum2, hcomb, hT0, hB0, vadd, Val.map2] <;> try ring
+    refine ⟨by triv, by simp [keyM.1], done_next keyM.2.1 ?_, done_next keyM.2.2 ?_⟩
+    · intro j hj hno
+      have : rightCol P.d P.Wr j = none := by
+        by_contra hne; exact hno (hw.all j hj hne)
+      simp [step4, comb_none P c j this]
+    · intro j hj hno
+      have : rightCol P.d P.Wr j = none := by
+        by_contra hne; exact hno (hw.all j hj hne)
+      simp [sum4, sum2, comb_none P c j this]
+  refine ⟨(⟨L.2.1, P.H, P.W⟩, ⟨L.2.2, P.H, P.W⟩), ?_, rfl, rfl, rfl, rfl, ?_⟩
+  · have h0 : ((P.H : Int) ≥ 0) ∧ ((P.W : Int) ≥ 0) := ⟨by omega, by omega⟩
     simp [key.1, h0]
   · intro y x hy hx
     exact ⟨done_final key.2.1 y x hy hx, done_final key.2.2 y x hy hx⟩
